@@ -1,8 +1,9 @@
 (* C05 — original blocks are conserved. *)
 From Coq Require Import ZArith List.
+Import ListNotations.
 From V Require Import Valid.Hier Valid.FlatRegion Valid.Cons Valid.Run.
 From Coq Require Import Lia.
-From V Require Import Model.Pipe Model.PipeBounded Model.PipeBounded4 Model.Graph Model.Edits Model.JoinPath.
+From V Require Import Model.Pipe Model.PipeBounded Model.PipeBounded4 Model.Graph Model.Edits Model.Edits2 Model.JoinPath Model.LoopEdit Model.LoopSpec Model.Extract Model.ExtractPath Model.Conserve.
 
 Theorem C05_checker_sound : forall g h, cons_check g h = true -> Conserved g h.
 Proof. exact cons_check_sound. Qed.
@@ -38,3 +39,62 @@ Theorem C05_closing_conserves :
     Conserved (og g) (ehier top g').
 Proof. exact join_returns_conserved. Qed.
 Print Assumptions C05_closing_conserves.
+
+(* the individual edits, for ALL graphs (no bound), over their line-by-line models: an original block
+   is still there afterwards, of the same class, with the same back edges and the same number of
+   successors, each successor unchanged or renamed to a block (region) the edit inserted *)
+Theorem C05_header_unification_conserves :
+  forall g top new var preds Ss names cls g',
+  NoDup preds /\ ~ In new preds ->
+  (NoDup names /\ forall a, In a names -> efind g a = None /\ a <> new /\ ~ In a preds /\ ~ In a Ss /\ a <> top) ->
+  (forall p b, In p preds -> efind g p = Some b ->
+      NoDup (e_jt b) /\ (forall a, In a names -> ~ In a (e_jt b)) /\
+      (forall c v t, e_kind b = EBranch c v t -> NoDup (map fst t))) ->
+  efind g new = None ->
+  insert_cb g new var preds Ss names cls = Ok g' ->
+  forall x b c, efind g x = Some b -> e_kind b = EPlain c ->
+    exists b', efind g' x = Some b' /\ e_kind b' = EPlain c /\ e_be b' = e_be b /\
+      length (e_jt b') = length (e_jt b) /\
+      forall k s t', nth_error (e_jt b) k = Some s -> nth_error (e_jt b') k = Some t' -> t' = s \/ In t' names.
+Proof. exact cb_conserves. Qed.
+Print Assumptions C05_header_unification_conserves.
+
+Theorem C05_loop_rotation_conserves :
+  forall g top hd headers exits todo unified header_tbl isback latch sexit ev bv names g',
+  let needs := match exits with _ :: _ :: _ => true | _ => false end in
+  loop_rotate g hd headers exits todo unified header_tbl isback latch sexit ev bv names = Ok g' ->
+  (NoDup todo /\
+   forall p, In p todo -> exists b, efind g p = Some b /\ e_be b = [] /\ NoDup (e_jt b) /\
+                                    (forall a, In a names -> ~ In a (e_jt b)) /\
+                                    (nonbranch b \/
+                                     forall t, In t (e_jt b) -> zmem t exits = false /\ (zmem t headers && isback p t)%bool = false)) ->
+  (NoDup names /\
+   forall a, In a names -> efind g a = None /\ ~ In a todo /\ a <> latch /\ a <> sexit /\ a <> top) ->
+  efind g latch = None /\ latch <> top /\ ~ In latch todo ->
+  (needs = true -> efind g sexit = None /\ sexit <> latch /\ sexit <> top /\ ~ In sexit todo) ->
+  ~ In top (ekeys g) ->
+  forall x b c, efind g x = Some b -> e_kind b = EPlain c ->
+    exists b', efind g' x = Some b' /\ e_kind b' = EPlain c /\ e_be b' = e_be b /\
+      length (e_jt b') = length (e_jt b) /\
+      forall k t t', nth_error (e_jt b) k = Some t -> nth_error (e_jt b') k = Some t' -> t' = t \/ In t' names.
+Proof.
+  intros g top hd headers exits todo unified header_tbl isback latch sexit ev bv names g' needs.
+  exact (rotate_conserves g top hd headers exits todo unified header_tbl isback latch sexit ev bv names g').
+Qed.
+Print Assumptions C05_loop_rotation_conserves.
+
+Theorem C05_region_extraction_conserves :
+  forall hd rname h lvl blocks entries ex rk h',
+  rname <> hd ->
+  extract h lvl blocks entries hd ex rk rname = XOk h' ->
+  find h rname = None ->
+  (forall x n, find h x = Some n -> is_region n = false -> Good hd rname n) ->
+  (exists nl, find h lvl = Some nl /\ is_region nl = true) ->
+  (exists rank : name -> nat,
+     (forall x n rk0 h0 e0 c0 p0 o0, find h x = Some n -> n_kind n = KRegion rk0 h0 e0 c0 p0 o0 -> (rank h0 < rank x)%nat) /\
+     (rank hd < rank lvl)%nat) ->
+  forall x n p, find h x = Some n -> n_kind n = KOrig p ->
+    exists n', find h' x = Some n' /\ n_kind n' = KOrig p /\ length (n_jt n') = length (n_jt n) /\
+      forall k t t', nth_error (n_jt n) k = Some t -> nth_error (n_jt n') k = Some t' -> t' = t \/ (t = hd /\ t' = rname).
+Proof. exact extract_conserves. Qed.
+Print Assumptions C05_region_extraction_conserves.
